@@ -88,11 +88,7 @@ Theorem C11_impl_sync_callers : impl_sync_callers_ok = true.
 Proof. vm_compute; reflexivity. Qed.
 Print Assumptions C11_impl_sync_callers.
 
-Theorem C11_impl_covers_table :
-  forallb (fun e => existsb (fun fa => String.eqb (f_struct fa) (fst (fst e)) && String.eqb (f_field fa) (snd (fst e)))
-                            impl_facts) guard_table = true.
-Proof. vm_compute; reflexivity. Qed.
-Print Assumptions C11_impl_covers_table.
+(* C11_impl_covers_table: table hygiene, stated in Properties/C11_tables.v (checked on every run, reported, not an obligation of the property) *)
 
 (* The facts that would be reported, for diagnostics when C11_impl_disciplined fails: evaluate
      Eval vm_compute in map f_pos (filter (fun f => negb (guard_ok guard_table f)) impl_facts). *)
@@ -211,10 +207,7 @@ Proof. vm_compute; reflexivity. Qed.
 Print Assumptions C11_impl_trusted_remainder.
 
 (* ... and the table lists nothing that the source does not need (no stale licence). *)
-Theorem C11_impl_trusted_table_tight :
-  table_tight f_fn (lookup guard_table) trusted_table impl_facts = true.
-Proof. vm_compute; reflexivity. Qed.
-Print Assumptions C11_impl_trusted_table_tight.
+(* C11_impl_trusted_table_tight: table hygiene, stated in Properties/C11_tables.v (checked on every run, reported, not an obligation of the property) *)
 
 Theorem C11_remainder_implies_guard_ok :
   forall (t : guard_tbl) (tbl : list trusted_entry) (facts : list fact),
@@ -251,15 +244,10 @@ Theorem C11_impl_local_trusted_remainder :
 Proof. vm_compute; reflexivity. Qed.
 Print Assumptions C11_impl_local_trusted_remainder.
 
-Theorem C11_impl_local_trusted_table_tight :
-  table_tight fn_lit local_lookup local_trusted_table impl_local_facts = true.
-Proof. vm_compute; reflexivity. Qed.
-Print Assumptions C11_impl_local_trusted_table_tight.
+(* C11_impl_local_trusted_table_tight: table hygiene, stated in Properties/C11_tables.v (checked on every run, reported, not an obligation of the property) *)
 
 (* every entry of the local guard table is exercised; its lock variables are captured locals checked as immutable *)
-Theorem C11_impl_local_table_covered : Proofs.LocksetImpl.local_table_covered = true.
-Proof. vm_compute; reflexivity. Qed.
-Print Assumptions C11_impl_local_table_covered.
+(* C11_impl_local_table_covered: table hygiene, stated in Properties/C11_tables.v (checked on every run, reported, not an obligation of the property) *)
 
 (* the list of captures and the list of local facts describe the same variables *)
 Theorem C11_impl_captures_consistent : Proofs.LocksetImpl.captures_consistent = true.
